@@ -113,9 +113,12 @@ register("C13", "fault_enumeration",
                           "(renaming the failing path away is unaffected)",
                           "a swallowed failure of the final remove of a *_delete marker is residue, not a violation"],
          45, 600,
-         [SingleSweepPart("C13", "FAULT", "fault-sweep", errnos=("EIO",), weight=3.0,
+         [SingleSweepPart("C13", "FAULT", "fault-sweep", errnos=("EIO",), weight=0.5,
                           extended_in=("thorough",)),
-          SingleRandomPart("C13", "FAULT", "fault-random", weight=1.0)])
+          SingleSweepPart("C13", "FAULT", "fault-sweep-errnos", errnos=("ENOSPC", "EACCES"), weight=0.5,
+                          extended_in=("thorough",), only_tiers=("thorough",)),
+          SingleRandomPart("C13", "FAULT", "fault-random", weight=2.0),
+          SingleRandomPart("C13", "FAULT", "fault-random-ext", weight=0.5, kinds="ext")])
 
 register("C10", "fault_enumeration",
          "three parts: complete sweep of the (start state x call) menu with process death before every mutating "
@@ -131,8 +134,10 @@ register("C10", "fault_enumeration",
                           "reference, membership in the cid list); the shared cid list file itself is legitimately "
                           "edited by the interrupted call"],
          45, 600,
-         [SingleSweepPart("C10", "CRASH", "crash-sweep", weight=3.0,
+         [SingleSweepPart("C10", "CRASH", "crash-sweep", weight=0.7,
                           knob_sets=[dict(write_through=True, blksize=4)]),
+          SingleSweepPart("C10", "CRASH", "crash-sweep-buffered", weight=0.5, only_tiers=("thorough",),
+                          knob_sets=[dict(write_through=False), dict(write_through=True, csize=(9000, 20000))]),
           SingleRandomPart("C10", "CRASH", "crash-random", weight=1.5, second=True),
           ConcCrashPart("C10", "crash-conc", weight=1.0)])
 
